@@ -134,6 +134,8 @@ def config(draw, kinds=gen.CHEAP, max_d=4, max_len=6, max_bs=4, losses=("minkows
            "loss": lspec, "model": draw(st.sampled_from(list(model_kinds))), "D": d_out, "N": n,
            "E": draw(st.integers(1, max_e)), "seed": draw(st.integers(0, 2**32 - 2))}
     cfg["as_array"] = draw(st.booleans())
+    if loss_kind in ("msm", "likelihood") and draw(st.integers(0, 3)) == 0:
+        cfg["sim_length"] = draw(st.integers(8, 24))   # a simulation length other than the real series' length
     if rl:
         cfg["rl"] = {"alpha": draw(st.sampled_from([-1, 0.1, 0.5])), "eps": draw(st.sampled_from([0.0, 0.1, 0.5, 1.0])),
                      "initial_values": draw(st.sampled_from([0.0, 0.0, 1.0])),
